@@ -581,6 +581,17 @@ pub struct Pair {
 }
 
 pub fn free_udp_port() -> u16 {
+    // A port for a single-port UDP mux socket, which the library binds some time after this probe. It is taken
+    // from below the ephemeral range (32768..), in a stripe of this process, so that no bind(0) of one of the
+    // harness processes running in parallel can be given the port in between (seen as rare "never connected").
+    static NEXT: std::sync::atomic::AtomicU32 = std::sync::atomic::AtomicU32::new(0);
+    let stripe = 10000 + (std::process::id() % 32) as u16 * 680;
+    for _ in 0..680 {
+        let p = stripe + (NEXT.fetch_add(1, std::sync::atomic::Ordering::Relaxed) % 680) as u16;
+        if std::net::UdpSocket::bind(("0.0.0.0", p)).is_ok() {
+            return p;
+        }
+    }
     std::net::UdpSocket::bind("127.0.0.1:0")
         .and_then(|s| s.local_addr())
         .map(|a| a.port())
